@@ -56,7 +56,11 @@ func (self *Analyzer) expression(node pAst.Expression) ast.AnalyzedExpression {
 		res = self.functionLiteral(src)
 	case pAst.GroupedExpressionKind:
 		src := node.(pAst.GroupedExpression)
+		// Parentheses are transparent: the inner expression stands in the place of the grouped one,
+		// also with regard to whether a value of type `any` is acceptable there.
+		self.currentModule.CreateErrorIfContainsAny = errOnAnyPrev
 		analyzed := self.expression(src.Inner)
+		self.currentModule.CreateErrorIfContainsAny = true
 		res = ast.AnalyzedGroupedExpression{Inner: analyzed, Range: src.Range}
 	case pAst.PrefixExpressionKind:
 		src := node.(pAst.PrefixExpression)
